@@ -11,7 +11,7 @@ RULE = ('schedules of the cooperative scheduler (scheduling points = wrapped pth
         '(ExecutorThread with 0-3 producers x 0-3 callbacks; FutureImpl raw-pointer pattern; FutureImpl with 0-2 '
         'extra getter copies; ExecutorThread with callbacks that call Execute again; SelectServer::Execute from 1-3 threads with callbacks that call Execute again, 0-3 RunOnce '
         'iterations, rest drained by the destructor; PeriodicThread constructor + Stop with schedulable time-outs of the timed wait) the non-preemptive run, every single preemption (position x thread), pairs of '
-        'preemptions (all in thorough, sampled in quick except for the two small Future scenarios and PeriodicThread, where all pairs run in quick), injected spurious wake-ups at every position (alone and '
+        'preemptions (all in thorough, sampled in quick except for the two small Future scenarios, where all pairs run in quick), injected spurious wake-ups at every position (alone and '
         'combined with a preemption), and random schedules; non-trivial = the run has >= 1 wait/wake or >= 1 callback '
         'run and ends normally; distinct = distinct model output line (trace of synchronisation operations)')
 ASSUMPTIONS = ['the wrapped pthread entry points are the only synchronisation in the modelled classes',
@@ -21,7 +21,7 @@ ASSUMPTIONS = ['the wrapped pthread entry points are the only synchronisation in
 TRUSTED = ['modelled rather than verified: ExecutorThread::{Execute,Start,Stop,RunRemaining,~ExecutorThread}, '
            'ConsumerThread::{Run,EmptyQueue}, Thread::{Start,FastStart,Join,IsRunning,_InternalRun}, '
            'FutureImpl<T>::{Get,Set,Ref,DeRef}, Future<T> copy/destructor, SelectServer::{Execute,DrainAndExecute,RunCallbacks,'
-           'DrainCallbacks,~SelectServer} with the wake pipe as a counter (hand transcription into the '
+           'DrainCallbacks,~SelectServer} with the wake pipe as a counter, PeriodicThread::{PeriodicThread,Run,Stop} (hand transcription into the '
            'instruction lists of coq/Progs.v, validated per schedule by trace equality)',
            'props/C17/harness.cpp cooperative scheduler and pthread emulation (ld --wrap)']
 
@@ -42,7 +42,7 @@ def gen_cases(rng, tier):
     scen = SCENARIOS_Q if quick else SCENARIOS_T
     for name, L, nt in scen:
         L = L + L // 2          # scheduling points after every unlock make the runs longer
-        small = name in ('futraw', 'futcopy 0', 'periodic')
+        small = name in ('futraw', 'futcopy 0')
         yield '%s -' % name
         # one preemption: every position x every choice
         for i in range(L):
@@ -57,7 +57,7 @@ def gen_cases(rng, tier):
         # two preemptions
         pairs = [(i, j, k1, k2) for i in range(L) for j in range(i + 1, L) for k1 in range(nt) for k2 in range(nt)]
         if quick and not small:
-            pairs = rng.sample(pairs, min(len(pairs), 120))
+            pairs = rng.sample(pairs, min(len(pairs), 600 if name == 'periodic' else 120))
         elif len(pairs) > 6000:
             pairs = rng.sample(pairs, 6000)
         for i, j, k1, k2 in pairs:
@@ -86,21 +86,24 @@ def nontrivial(payload, md):
 
 
 LEVEL_TEXT = ('Coq theorems over ALL schedules (induction on the step relation of an explicit-schedule machine with '
-              'spurious wake-ups). ExecutorThread with any number of producers/callbacks: no hazard, callbacks run at most '
-              'once, in the order queued, never by the submitter, all run exactly once and queue empty when the owner has '
-              'finished (c17_exec_once); wake-up invariant and deadlock freedom (c17_wakeup_invariant, c17_no_lost_wakeup). '
-              'SelectServer::Execute/DrainAndExecute/RunCallbacks/~SelectServer with any number of producer threads, '
-              'callbacks that call Execute again from inside the callback, any number of RunOnce iterations: same '
-              'exactly-once / order / loop-thread-only / drained-at-destruction statement (c17_ss_exec_once). Locksets and '
-              'lock discipline for all transcribed programs (c17_lockset, c17_lock_discipline, c17_no_bad_unlock). '
-              'FutureImpl: raw-pointer pattern of DrainCallbacks and the two-holder reference-counting pattern: no '
-              'use-after-free/double free/destroy-while-busy, Get returns the value set after Set (c17_future_raw, '
-              'c17_future_two_holders). NOT proved for all schedules, only checked per enumerated schedule by trace equality '
-              'with the real classes under a cooperative scheduler: FutureImpl with more than two holders (extra getter '
-              'threads); ExecutorThread with callbacks that call Execute again (scenario execre; the all-schedules '
-              'theorems are for callbacks that do not re-submit); deadlock freedom of the SelectServer scenario. '
-              'NOT modelled: SelectServer::Terminate (and its unlocked m_is_running read), the poller/timeouts, ThreadPool, '
-              'PeriodicThread, FilePreferenceSaverThread::Synchronize, ExecutorThread::DrainCallbacks itself.')
+              'spurious wake-ups and time-outs of timed waits). ExecutorThread with any number of producers/callbacks: '
+              'exactly once, queued order, never by the submitter, drained when the owner finishes (c17_exec_once); '
+              'wake-up invariant and deadlock freedom (c17_wakeup_invariant, c17_no_lost_wakeup). SelectServer::Execute/'
+              'DrainAndExecute/RunCallbacks/~SelectServer with callbacks that call Execute again: same statement '
+              '(c17_ss_exec_once). PeriodicThread constructor/Run/Stop: no hazard, after Stop set m_terminate the callback '
+              'runs at most once more in every continuation, and some non-sleeping thread can always step until Stop '
+              'returns - no state where Stop is blocked while the thread only times out (c17_periodic_stop, '
+              'c17_periodic_no_deadlock). Locksets and lock discipline for all transcribed programs (c17_lockset, '
+              'c17_lock_discipline, c17_no_bad_unlock). FutureImpl raw-pointer and two-holder patterns: no use-after-free/'
+              'double free, Get returns the value set after Set (c17_future_raw, c17_future_two_holders). '
+              'NOT proved for all schedules, only checked per enumerated schedule (scheduling points before every wrapped '
+              'pthread call and after every unlock; ASan in the harness child) by trace equality with the real classes: '
+              'FutureImpl with more than two holders; ExecutorThread with callbacks that call Execute again (execre); '
+              'deadlock freedom of the SelectServer scenario; that Stop() of PeriodicThread terminates is proved only as '
+              'deadlock freedom + the bound on callback runs, not as a fairness/termination theorem. NOT modelled: '
+              'SelectServer::Terminate (unlocked m_is_running read), poller/timeouts, ThreadPool, '
+              'FilePreferenceSaverThread::Synchronize, ExecutorThread::DrainCallbacks itself, a PeriodicThread callback '
+              'that returns false.')
 LEVEL_NOTE = ('Trusted: Coq kernel, extraction (ExtrOcamlBasic), OCaml/C++ glue, the hand transcription of the C++ '
               'methods into instruction lists (validated by per-schedule trace equality, not proved), the pthread '
               'emulation in the harness (ld --wrap; one thread runs at a time, so real memory-model races are not '
